@@ -176,22 +176,22 @@ theorem leVal_le32 (w : Nat) (h : w < 4294967296) : leVal (C07.le32 w) = w := by
 
 /-- `read_vcpu_struct_field("cpu_state", x, y, p)` returns the state of core p of chip (x, y) -/
 theorem readCpuState_spec (mc : MCfg) (buf : Nat) (s : Sim) (x y p : Nat) (hb : 4 ≤ buf)
-    (hv : mc.vcpuBase < 4294967296) :
+    (hv : ∀ x y, mc.vcpuBase x y < 4294967296) :
     (readCpuState mc buf s x y p).2 = (s.m.core x y p).state ∧
     (readCpuState mc buf s x y p).1.m = s.m ∧ (readCpuState mc buf s x y p).1.nn = s.nn := by
   have hoff : ¬ (svBase + offVcpuBase = svBase + offSdramSys) := by simp [offVcpuBase, offSdramSys]
-  have h1 : (readMem mc buf s x y (svBase + offVcpuBase) 4).2 = C07.le32 mc.vcpuBase := by
+  have h1 : (readMem mc buf s x y (svBase + offVcpuBase) 4).2 = C07.le32 (mc.vcpuBase x y) := by
     simp only [readMem_eq, readStep, read4 buf _ hb, List.foldl_cons, List.foldl_nil, Sim.send, step, decode_read, stepP,
       hoff, false_and, if_false, and_self, if_true, Reply.bytes, List.nil_append]
   have hm1 := readMem_m mc buf s x y (svBase + offVcpuBase) 4
   have hm2 := readMem_m mc buf (readMem mc buf s x y (svBase + offVcpuBase) 4).1 x y
     (leVal (readMem mc buf s x y (svBase + offVcpuBase) 4).2 + vcpuSize * p + offCpuState) 1
   refine ⟨?_, ?_, ?_⟩
-  · simp only [readCpuState, h1, leVal_le32 _ hv]
-    have hc : mc.vcpuBase ≤ mc.vcpuBase + vcpuSize * p + offCpuState ∧
-        (mc.vcpuBase + vcpuSize * p + offCpuState - mc.vcpuBase) % vcpuSize = offCpuState ∧ True := by
+  · simp only [readCpuState, h1, leVal_le32 _ (hv x y)]
+    have hc : mc.vcpuBase x y ≤ mc.vcpuBase x y + vcpuSize * p + offCpuState ∧
+        (mc.vcpuBase x y + vcpuSize * p + offCpuState - mc.vcpuBase x y) % vcpuSize = offCpuState ∧ True := by
       simp only [vcpuSize, offCpuState]; exact ⟨by omega, by omega, trivial⟩
-    have hd : (mc.vcpuBase + vcpuSize * p + offCpuState - mc.vcpuBase) / vcpuSize = p := by
+    have hd : (mc.vcpuBase x y + vcpuSize * p + offCpuState - mc.vcpuBase x y) / vcpuSize = p := by
       simp only [vcpuSize, offCpuState]; omega
     have n4 : ¬ ((1 : Nat) = 4) := by decide
     simp only [readMem_eq, readStep, read1 buf _ hb, List.foldl_cons, List.foldl_nil, Sim.send, step, decode_read, stepP,
@@ -225,7 +225,7 @@ def filtApps (core : Nat → Nat → Nat → Core) : List App → List App
     if (filtTargets core a.targets).length > 0 then { a with targets := filtTargets core a.targets } :: filtApps core as
     else filtApps core as
 
-theorem checkCores_spec (mc : MCfg) (buf x y : Nat) (hb : 4 ≤ buf) (hv : mc.vcpuBase < 4294967296) :
+theorem checkCores_spec (mc : MCfg) (buf x y : Nat) (hb : 4 ≤ buf) (hv : ∀ x y, mc.vcpuBase x y < 4294967296) :
     ∀ (ps : List Nat) (s : Sim),
       (checkCores mc buf x y s ps).2 = ps.filter (notWaiting s.m.core x y) ∧
       (checkCores mc buf x y s ps).1.m = s.m ∧ (checkCores mc buf x y s ps).1.nn = s.nn := by
@@ -240,7 +240,7 @@ theorem checkCores_spec (mc : MCfg) (buf x y : Nat) (hb : 4 ≤ buf) (hv : mc.vc
     refine ⟨?_, trivial, trivial⟩
     by_cases hw : (s.m.core x y p).state = stWait <;> simp [hw]
 
-theorem checkTargets_spec (mc : MCfg) (buf : Nat) (hb : 4 ≤ buf) (hv : mc.vcpuBase < 4294967296) :
+theorem checkTargets_spec (mc : MCfg) (buf : Nat) (hb : 4 ≤ buf) (hv : ∀ x y, mc.vcpuBase x y < 4294967296) :
     ∀ (ts : List (Nat × Nat × List Nat)) (s : Sim),
       (checkTargets mc buf s ts).2 = filtTargets s.m.core ts ∧
       (checkTargets mc buf s ts).1.m = s.m ∧ (checkTargets mc buf s ts).1.nn = s.nn := by
@@ -255,7 +255,7 @@ theorem checkTargets_spec (mc : MCfg) (buf : Nat) (hb : 4 ≤ buf) (hv : mc.vcpu
     simp only [checkTargets, filtTargets, i1, i2, i3, h1, h2, h3]
     exact ⟨trivial, trivial, trivial⟩
 
-theorem checkApps_spec (mc : MCfg) (buf : Nat) (hb : 4 ≤ buf) (hv : mc.vcpuBase < 4294967296) :
+theorem checkApps_spec (mc : MCfg) (buf : Nat) (hb : 4 ≤ buf) (hv : ∀ x y, mc.vcpuBase x y < 4294967296) :
     ∀ (as : List App) (s : Sim),
       (checkApps mc buf s as).2 = filtApps s.m.core as ∧
       (checkApps mc buf s as).1.m = s.m ∧ (checkApps mc buf s as).1.nn = s.nn := by
